@@ -23,8 +23,6 @@ import vlib
 from props import path_common as G
 
 PID = "C31"
-K_DSEP = "iter:inner-double-separator"
-K_ROOT = "iter:dotdot-at-root"
 
 CORPUS_PM = [[p, t, b, m, b"u"] for p, t, b, m in [
     (b"?*a", b"ba", b"", b"f"), (b"a*?", b"ab", b"", b"f"), (b"?*.c", b"xy.c", b"", b"f"), (b"a***", b"ab", b"", b"f"),
@@ -135,16 +133,16 @@ def check(run, replay):
         run.count("iter-vs-canon", None, nontrivial=(c[0], c[1]), bucket="agree" if i == s else "differ")
         if i != s:
             run.stream("iter-vs-canon")["disagreements"] += 1
-            key = K_DSEP if dsep else (K_ROOT if under else "iter:%s:%s" % (c[0].hex(), c[1].hex()))
+            key = "iter:%s:%s" % (c[0].hex(), c[1].hex())
             if key not in seen_classes or len(raw) < len(seen_classes[key][0]):
                 seen_classes[key] = (raw, c, i, s)
-    unclassified = sorted((k for k in seen_classes if k not in (K_DSEP, K_ROOT)), key=lambda k: (len(seen_classes[k][0]), k))
+    unclassified = sorted(seen_classes, key=lambda k: (len(seen_classes[k][0]), k))
     for k in unclassified[3:]:
         del seen_classes[k]
     for key, (raw, c, i, s) in sorted(seen_classes.items()):
         run.violation(key, "PathIterator(%r, %r).read() = %s but the documented canonical form is %s" % (c[0], c[1], vlib.show(i), vlib.show(s)),
                       {"input": {"a": vlib.show(c[0]), "b": vlib.show(c[1])}, "impl": vlib.show(i), "spec": vlib.show(s),
-                       "how": "echo '%s' | build/harness/vh_c31 iterraw ; e.g. `cppcheck -isub src//sub` still checks src/sub/*.c" % vlib.enc_case(c)})
+                       "how": "echo '%s' | build/harness/vh_c31 iterraw" % vlib.enc_case(c)})
 
     for cmd in ("iterpat", "iterpath"):
         cs = [[G.gen_str(rng, cmd == "iterpat", 4), rng.choice(G.BASES), b"u"] for _ in range(1500 if quick else 30000)]
@@ -200,21 +198,20 @@ def check(run, replay):
                 if under and not rooted:
                     run.count("pm-vs-spec", None, bucket="unspecified(relative,'..' above start)")
                     continue
-                key = K_DSEP if dsep else (K_ROOT if under else "pmcanon:%s:%s:%s" % (c[0].hex(), c[1].hex(), c[2].hex()))
+                key = "pmcanon:%s:%s:%s" % (c[0].hex(), c[1].hex(), c[2].hex())
             else:
                 key = "pmspec:%s:%s:%s:%s" % (c[0].hex(), c[1].hex(), c[2].hex(), c[3].decode())
             classes.setdefault(key, []).append((c, i, s))
-        # the known classes first, then the smallest unclassified inputs
-        order = sorted(classes.items(), key=lambda kv: (0, kv[0]) if kv[0] in (K_DSEP, K_ROOT) else (1, size(min(kv[1], key=size))))
+        # the smallest inputs first
+        order = sorted(classes.items(), key=lambda kv: size(min(kv[1], key=size)))
         for key, lst in order[:6]:
             c, i, s = min(lst, key=size)
-            why = {K_DSEP: " (the iterator drops the separator at an inner '//')",
-                   K_ROOT: " (the iterator loses the root at '/..')"}.get(key, "")
+            why = " (the iterator does not read the canonical form)" if key.startswith("pmcanon:") else ""
             run.violation(key, "PathMatch::match(%r, %r, base %r, %s) = %s but the documented rules say %s%s"
                           % (c[0], c[1], c[2], c[3].decode(), vlib.show(i), vlib.show(s), why),
                           {"input": dict(zip(["pattern", "path", "base", "mode", "syntax"], vlib.show(c))), "impl": vlib.show(i), "spec": vlib.show(s),
                            "count_in_this_run": len(lst),
-                           "how": "echo '%s' | build/harness/vh_c31 pm ; end to end e.g. `cppcheck -isub src//sub` still checks src/sub/*.c"
+                           "how": "echo '%s' | build/harness/vh_c31 pm ; end to end: cppcheck -i<pattern> <dir>"
                                   % vlib.enc_case(c)})
 
     # ---- stream 3: Path::simplifyPath / acceptFile / identify (tie)
